@@ -78,8 +78,13 @@ fn run_derive(bin: &Path, dir: &Path, name: &str, parent: &Path, paths: &[String
     finish(c, &base)
 }
 fn finish(mut c: Command, base: &Path) -> Out {
-    let _ = std::fs::remove_file(base);
-    let _ = std::fs::remove_file(base.with_extension("pub"));
+    // half of the runs write over files that already exist and are LONGER than a key file (an earlier
+    // key pair, a recipients list): the result must be the key files, nothing of the old content
+    let over = fnv(base.to_string_lossy().as_bytes()) % 2 == 0;
+    for p in [base.to_path_buf(), base.with_extension("pub")] {
+        let _ = std::fs::remove_file(&p);
+        if over { let _ = std::fs::write(&p, vec![b'#'; 300]); }
+    }
     let o = c.output().expect("run mlar");
     Out {
         ok: o.status.success(),
